@@ -38,3 +38,8 @@ Fixpoint take {A} (n : nat) (l : list A) : option (list A * list A) :=
                        end
            end
   end.
+
+(* [take] with the count given as a binary number: an absurd length claim is refused without ever being converted to
+   unary (a hostile DER length of 2^60 must not cost 2^60 steps) *)
+Definition take_n {A} (n : N) (l : list A) : option (list A * list A) :=
+  if N.ltb (N.of_nat (length l)) n then None else take (N.to_nat n) l.
